@@ -10,3 +10,6 @@ func Point(name string) {}
 
 // Paused reports whether the named background activity is held by the harness.
 func Paused(name string) bool { return false }
+
+// Int64 returns a harness-provided tuning value, or 0 when none is set.
+func Int64(name string) int64 { return 0 }
